@@ -217,6 +217,55 @@ func init() {
 		}
 		b.WriteString("Definition collapse_rules_equal : list nat := " + xorParts(ifs.Body) + ".\n")
 		b.WriteString("Definition collapse_rules_differ : list nat := " + xorParts(elseBlk) + ".\n")
+
+		// ---- buildTarget: the two-phase check of targets the build can modify, and the order in which a finished
+		// build records its results (the model's build_rule_od / run_od follow exactly this order)
+		bset, bf := parseFile("src/build/build_step.go")
+		bt := findFunc(bf, "", "buildTarget")
+		var bbuf bytes.Buffer
+		printer.Fprint(&bbuf, bset, bt.Body)
+		body := strings.Join(strings.Fields(bbuf.String()), " ")
+		steps := []struct{ name, text string }{
+			{"SPreCheck", "if !target.IsFilegroup && !needsBuilding(state, target, false) {"},
+			{"SCouldModify", "if target.BuildCouldModifyTarget() {"},
+			{"SLoadMetadata", "metadata, err = loadTargetMetadata(target)"},
+			{"SAddMetadataOuts", "addOutDirOutsFromMetadata(target, metadata)"},
+			{"SPostCheck", "if !target.BuildCouldModifyTarget() || !needsBuilding(state, target, true) {"},
+			{"SUnchanged", "return nil // Nothing needs to be done."},
+			{"SRunCommand", "metadata, err = build(state, target, cacheKey)"},
+			{"SAddFoundOuts", "metadata.OutputDirOuts, err = addOutputDirectoriesToBuildOutput(target)"},
+			{"SStoreMetadata", "} else if err := StoreTargetMetadata(target, metadata); err != nil {"},
+			{"SMoveOutputs", "outs, outputsChanged, err := moveOutputs(state, target)"},
+			{"SWriteRecord", "if _, err = calculateAndCheckRuleHash(state, target); err != nil {"},
+		}
+		// comments are not printed by go/printer for a bare node: drop the comment of SUnchanged when it is absent
+		pos := -1
+		var names []string
+		for _, st := range steps {
+			text := st.text
+			// the first occurrence after the previous step (some statements recur in the cache branch further down)
+			i := strings.Index(body[pos+1:], text)
+			if i >= 0 {
+				i += pos + 1
+			}
+			if i < 0 && st.name == "SUnchanged" {
+				text = "return nil"
+				i = strings.Index(body[pos+1:], text)
+				if i >= 0 {
+					i += pos + 1
+				}
+			}
+			if i < 0 {
+				failShape("buildTarget: statement {%s} not found", st.text)
+			}
+			if i <= pos {
+				failShape("buildTarget: statement {%s} is not after the previous step", st.text)
+			}
+			pos = i
+			names = append(names, st.name)
+		}
+		b.WriteString("Inductive bstep := " + strings.Join(names, " | ") + ".\n")
+		b.WriteString("Definition build_target_order : list bstep := [" + strings.Join(names, "; ") + "].\n")
 		return b.String()
 	}
 }
